@@ -334,6 +334,29 @@ impl Sim {
         self.pending_att.len()
     }
 
+    /// Send an HTTP request for `lane` (which need not exist: the runtime's HTTP task then answers 404)
+    /// to the agent's HTTP request channel. Any request re-arms the HTTP task's inactivity timeout.
+    /// Returns false if the channel is full or closed. The response is not awaited.
+    pub fn http_request(&mut self, lane: &str) -> bool {
+        use swimos_api::http::{HttpRequest, Method, Uri, Version};
+        let Ok(uri) = format!("http://example/{}?lane={}", self.node.trim_start_matches('/'), lane).parse::<Uri>() else {
+            return false;
+        };
+        let request = HttpRequest {
+            method: Method::GET,
+            version: Version::default(),
+            uri,
+            headers: vec![],
+            payload: bytes::Bytes::new(),
+        };
+        let (req, _response_rx) = HttpLaneRequest::new(request);
+        let ok = self._http_tx.try_send(req).is_ok();
+        if ok {
+            self.flag.0.store(true, Ordering::SeqCst);
+        }
+        ok
+    }
+
     /// Trigger the external stop signal (clean shutdown).
     pub fn stop(&mut self) {
         if let Some(tx) = self.stop_tx.take() {
